@@ -48,9 +48,14 @@ func c09Gen(t *rapid.T, env *core.Env) any {
 	}
 	out := fer.Run(p)
 	c := &c09Case{Base: p.Source(), Expect: out.Lines, Term: out.Term, Family: family}
-	if out.Err != "" {
+	if out.Err != "" && family != "consts" {
 		c.Discard = "model: " + out.Err
 		return c
+	}
+	if out.Err != "" {
+		// the constant-rich family contains value-changing casts, which the reference model leaves
+		// open: base and variant are still compared with each other
+		c.Expect, c.Term = nil, ""
 	}
 	// per-rule densities (out of 8) so that single-rule and mixed variants both occur
 	dens := map[string]int{}
@@ -161,7 +166,7 @@ func c09Check(env *core.Env, ci any) (res core.Result) {
 		res.Discard = "base does not run (" + b.term + ")"
 		return
 	}
-	if c.Target == "native" && (b.term != c.Term || strings.Join(b.lines, "\n") != strings.Join(c.Expect, "\n")) {
+	if c.Target == "native" && c.Term != "" && (b.term != c.Term || strings.Join(b.lines, "\n") != strings.Join(c.Expect, "\n")) {
 		// not decisive here (C01 owns agreement with the reference); base and variant are still compared with each other
 		res.Labels = append(res.Labels, "base_deviates_from_reference")
 	}
